@@ -343,6 +343,12 @@ func init() {
 	for name := range pureExternal {
 		name := name
 		H[name] = func(e *Engine, fc *fnCtx, st *State, c *ssa.CallCommon, a []Val, r types.Type) (Val, bool) {
+			for _, k := range externalNonNil[name] {
+				if k < len(a) {
+					// the external function dereferences this argument (read in its source): nil panics
+					e.addObl(fc.fn, "nilderef", fmt.Sprintf("%s argument %d of %s", e.srcText(c.Pos(), "call"), k, name), c.Pos(), st.Reach, "(not (= "+a[k].T+" 0))")
+				}
+			}
 			return e.pureExternalTerm(name, a, r), true
 		}
 		pureSpecMethods[name] = func(e *Engine, env *SpecEnv, a []Val) Val {
@@ -891,6 +897,21 @@ var pureExternal = map[string]bool{
 	"(deps.dev/util/semver.System).Compare":  true,
 	"(deps.dev/util/resolve.System).Semver":  true,
 	"(*deps.dev/util/semver.System).Compare": true,
+	"(*deps.dev/util/semver.Version).Compare":      true,
+	"(*deps.dev/util/semver.Version).String":       true,
+	"(*deps.dev/util/semver.Version).Difference":   true,
+	"(*deps.dev/util/semver.Constraint).IsSimple":  true,
+}
+
+// externalNonNil: arguments (receiver = 0) that the external function dereferences unconditionally; a call with nil
+// there panics inside the dependency. Read off the dependency's source (deps.dev/util/semver: Version.String returns
+// v.str; Version.Difference reads v.sys and, for Maven, both versions' ext; Constraint.IsSimple returns c.simple;
+// Constraint.MatchVersion calls c.match which reads c.set).
+var externalNonNil = map[string][]int{
+	"(*deps.dev/util/semver.Version).String":          {0},
+	"(*deps.dev/util/semver.Version).Difference":      {0, 1},
+	"(*deps.dev/util/semver.Constraint).IsSimple":     {0},
+	"(*deps.dev/util/semver.Constraint).MatchVersion": {0},
 }
 
 func (e *Engine) pureExternalTerm(name string, a []Val, r types.Type) Val {
